@@ -1,0 +1,246 @@
+//go:build verif
+
+package martian
+
+// Contracts for govc (contract-based deductive verification, see /verif/DESIGN.md).
+// This file contains comments only and is compiled only with the build tag `verif`.
+
+// ---------------------------------------------------------------------------------------------
+// Ghost vocabulary of the proxy core (C01-C05, C07). Counters of the abstract calls an exchange makes:
+//   nReq / nRes   request / response modifier invocations        nUp     upstream contacts (RoundTrip, dial)
+//   nWrite/nFlush responses written to / flushed on the client   wroteErr a write or flush to the client failed
+//   gotReq        the last readRequest delivered a request        closingSeen  the last Closing() call returned true
+
+//@ ghost var nReq int
+//@ ghost var nRes int
+//@ ghost var nUp int
+//@ ghost var nWrite int
+//@ ghost var wroteErr bool
+//@ ghost var gotReq bool
+//@ ghost var closingSeen bool
+//@ ghost var nConnClose int
+//@ ghost field Session.gconnTLS bool
+
+//@ specfunc isTimeout(err error) bool
+//@ pred closeable(err error) = err == errClose || err == io.EOF || err == io.ErrClosedPipe || (typeis(err, net.Error) && isTimeout(err))
+
+//@ extern iface net.Error.Timeout
+//@   ensures result == isTimeout(self)
+
+//@ func isCloseable
+//@   serves C01 C02 C03 C07
+//@   modifies nothing
+//@   ensures[closeable-errors] result == closeable(err)
+
+// ---------------------------------------------------------------------------------------------
+// Modifiers and the network, as the proxy sees them (assumed for arbitrary user code).
+
+//@ iface RequestModifier.ModifyRequest
+//@   requires req != nil
+//@   modifies nReq, http.Request.*, url.URL.*, Session.hijacked, Session.secure, Context.skipRoundTrip, Context.skipLogging, Context.apiRequest
+//@   ensures nReq == old(nReq) + 1
+//@   ensures req.URL != nil && req.Header != nil && req.Body != nil
+//@ iface ResponseModifier.ModifyResponse
+//@   requires res != nil
+//@   modifies nRes, http.Response.*, Session.hijacked, Context.skipRoundTrip, Context.skipLogging, Context.apiRequest
+//@   ensures nRes == old(nRes) + 1
+//@   ensures res.Body != nil && res.Header != nil
+
+//@ extern iface http.RoundTripper.RoundTrip
+//@   modifies nUp
+//@   ensures nUp == old(nUp) + 1
+//@   ensures (result1 == nil) == (result0 != nil)
+//@   ensures result0 != nil ==> result0.Body != nil && result0.Header != nil
+
+//@ extern func (*http.Response).Write
+//@   modifies nWrite, wroteErr
+//@   ensures nWrite == old(nWrite) + 1
+//@   ensures result != nil ==> wroteErr
+//@   ensures result == nil ==> wroteErr == old(wroteErr)
+//@ ghost field bufio.Writer.gFlushed int
+//@ ghost field bufio.Writer.gFailed bool
+//@ extern func (*bufio.Writer).Flush
+//@   modifies b.gFlushed, b.gFailed
+//@   ensures b.gFlushed == old(b.gFlushed) + 1
+//@   ensures result != nil ==> b.gFailed
+//@   ensures result == nil ==> b.gFailed == old(b.gFailed)
+//@ extern iface io.Closer.Close
+//@ extern iface net.Conn.Close
+//@   modifies nConnClose
+//@   ensures nConnClose == old(nConnClose) + 1
+
+// ---------------------------------------------------------------------------------------------
+// Sessions and contexts (context.go).
+
+//@ pred sessionIdle(s *Session) = s != nil && !s.mu.wheld && s.mu.rheld == 0
+//@ pred ctxIdle(c *Context) = c != nil && !c.mu.wheld && c.mu.rheld == 0
+//@ pred tableIdle() = !ctxmu.wheld && ctxmu.rheld == 0 && ctxs != nil
+
+//@ func (*Session).Hijacked
+//@   serves C02
+//@   requires sessionIdle(s)
+//@   modifies s.mu.rheld
+//@   ensures result == s.hijacked && sessionIdle(s)
+//@ func (*Session).IsSecure
+//@   serves C05
+//@   requires sessionIdle(s)
+//@   modifies s.mu.rheld
+//@   ensures result == s.secure && sessionIdle(s)
+//@ func (*Session).MarkSecure
+//@   serves C05
+//@   requires sessionIdle(s)
+//@   modifies s.mu.wheld, s.secure
+//@   ensures s.secure && sessionIdle(s)
+//@ func (*Session).Hijack
+//@   serves C02 C05
+//@   requires sessionIdle(s)
+//@   modifies s.mu.wheld, s.hijacked
+//@   ensures sessionIdle(s) && s.hijacked
+//@   ensures[hijack-once] old(s.hijacked) ==> result2 != nil && result0 == nil && result1 == nil
+//@   ensures[hijacker-gets-session-connection] !old(s.hijacked) ==> result2 == nil && result0 == s.conn && result1 == s.brw
+//@ func (*Session).setConn
+//@   serves C05
+//@   requires sessionIdle(s)
+//@   modifies s.mu.wheld, s.conn, s.brw
+//@   ensures sessionIdle(s) && s.conn == conn && s.brw == brw
+//@ func (*Context).Session
+//@   serves C02 C05
+//@   requires ctx != nil
+//@   modifies nothing
+//@   ensures result == ctx.session
+//@ func (*Context).SkippingRoundTrip
+//@   serves C02
+//@   requires ctxIdle(ctx)
+//@   modifies ctx.mu.rheld
+//@   ensures result == ctx.skipRoundTrip && ctxIdle(ctx)
+//@ func (*Context).SkipRoundTrip
+//@   serves C02
+//@   requires ctxIdle(ctx)
+//@   modifies ctx.mu.wheld, ctx.skipRoundTrip
+//@   ensures ctx.skipRoundTrip && ctxIdle(ctx)
+
+//@ func newID
+//@   serves C02
+//@   trusted
+//@ func newSession
+//@   serves C02
+//@   requires true
+//@   ensures[fresh-session] result1 == nil ==> result0 != nil && fresh(result0) && result0.conn == conn && result0.brw == brw && !result0.hijacked && !result0.secure && sessionIdle(result0)
+//@   ensures result1 != nil ==> result0 == nil
+//@ func withSession
+//@   serves C02
+//@   ensures[fresh-context-for-session] result1 == nil ==> result0 != nil && fresh(result0) && result0.session == s && !result0.skipRoundTrip && !result0.skipLogging && !result0.apiRequest && ctxIdle(result0)
+//@   ensures result1 != nil ==> result0 == nil
+
+//@ func link
+//@   serves C02
+//@   requires tableIdle()
+//@   modifies ctxmu.wheld, ctxs[req]
+//@   ensures[adds-exactly-this-association] has(ctxs, req) && ctxs[req] == ctx && tableIdle()
+//@ func unlink
+//@   serves C02
+//@   requires tableIdle()
+//@   modifies ctxmu.wheld, ctxs[req]
+//@   ensures[removes-exactly-this-association] !has(ctxs, req) && tableIdle()
+//@ func NewContext
+//@   serves C02
+//@   requires tableIdle()
+//@   modifies ctxmu.rheld
+//@   ensures tableIdle()
+//@   ensures[returns-the-linked-context] has(ctxs, req) ==> result == ctxs[req]
+//@   ensures !has(ctxs, req) ==> result == nil
+
+// ---------------------------------------------------------------------------------------------
+// The proxy core (proxy.go).
+
+//@ pred proxyReady(p *Proxy) = p != nil && p.reqmod != nil && p.resmod != nil && p.roundTripper != nil && tableIdle()
+
+//@ func (*Proxy).Closing
+//@   serves C07
+//@   trusted
+//@   modifies closingSeen
+//@   ensures result == closingSeen
+
+// readRequest: every read error closes the connection; a request is returned only together with a nil error.
+// (The request itself comes out of a goroutine through a channel: its well-formedness is assumed.)
+//@ func (*Proxy).readRequest
+//@   serves C03 C07
+//@   requires p != nil
+//@   modifies gotReq
+//@   ensures[any-read-error-closes] result1 != nil ==> result1 == errClose && result0 == nil
+//@   assumes result1 == nil ==> result0 != nil && result0.URL != nil && result0.Body != nil && result0.Header != nil && fresh(result0)
+//@   assumes gotReq == (result1 == nil)
+
+//@ func (*Proxy).roundTrip
+//@   serves C01 C02 C03
+//@   requires p != nil && p.roundTripper != nil && ctxIdle(ctx) && req != nil
+//@   modifies nUp, ctx.mu.rheld
+//@   ensures ctxIdle(ctx)
+//@   ensures[skip-round-trip-makes-no-upstream-contact] ctx.skipRoundTrip ==> nUp == old(nUp) && result1 == nil && result0 != nil && result0.StatusCode == 200 && result0.Request == req && result0.Body != nil
+//@   ensures[one-upstream-contact] !ctx.skipRoundTrip ==> nUp == old(nUp) + 1
+//@   ensures[response-or-error] (result1 == nil) == (result0 != nil)
+//@   ensures result0 != nil ==> result0.Body != nil && result0.Header != nil
+
+//@ func (*Proxy).handle
+//@   serves C01 C02 C03 C05 C07
+//@   noframe
+//@   requires proxyReady(p) && ctxIdle(ctx) && sessionIdle(ctx.session) && conn != nil && brw != nil && brw.Writer != nil && brw.Reader != nil
+//@   modifies nReq, nRes, nUp, nWrite, bufio.Writer.gFlushed, bufio.Writer.gFailed, wroteErr, gotReq, up0, res0, wr0, didLink, closingSeen, nConnClose, nWarn, lastWarnHeader, ctxs[*], ctxmu.wheld, ctxmu.rheld
+//@   modifies http.Request.*, url.URL.*, http.Response.*, Session.hijacked, Session.secure, Session.conn, Session.brw, Context.skipRoundTrip, Context.skipLogging, Context.apiRequest
+//@   modifies sync.RWMutex.wheld, sync.RWMutex.rheld, dialN, lastDialed, lastDialErr, tls.Conn.gclosed, trafficshape.Conn.Context
+//@   ensures[locks-released] tableIdle() && sessionIdle(ctx.session)
+//@   ensures[response-modifier-runs-once-per-request-modifier] !ctx.session.hijacked ==> nRes - old(nRes) == nReq - old(nReq)
+//@   ensures[at-most-one-upstream-contact-per-exchange] nUp - old(nUp) <= nReq - old(nReq)
+//@   ensures[one-response-written-per-exchange] !ctx.session.hijacked ==> nWrite - old(nWrite) == nReq - old(nReq)
+//@   ensures[no-exchange-means-the-connection-ends] nReq == old(nReq) ==> closeable(result)
+//@   ensures[hijacked-connection-is-not-served-again] ctx.session.hijacked ==> closeable(result)
+//@   ensures[failed-write-closes-the-connection] (wroteErr && !old(wroteErr)) || (brw.Writer.gFailed && !old(brw.Writer.gFailed)) ==> closeable(result)
+//@   at entry 0 before set up0 = nUp
+//@   at entry 0 before set res0 = nRes
+//@   at entry 0 before set wr0 = nWrite
+//@   at call 0 of ModifyRequest before assert[no-upstream-contact-before-request-modifier] nUp == up0
+//@   at call 0 of ModifyRequest before assert[context-linked-to-this-request] has(ctxs, req) && ctxs[req] == ctx && ctx.session == session
+//@   at call 0 of ModifyRequest before assert[secure-session-forces-https] session.secure ==> req.URL.Scheme == "https"
+//@   at call 0 of ModifyRequest before assert[secure-session-request-carries-tls-state] session.secure ==> req.TLS != nil
+//@   at call 0 of ModifyRequest before assert[insecure-session-is-http] !session.secure ==> req.URL.Scheme == "http"
+//@   at call 0 of ModifyRequest before assert[authority-filled-from-host-header] req.URL.Host != "" || req.Host == ""
+//@   at call 0 of ModifyResponse before assert[same-context-on-both-sides] res.Request == req && has(ctxs, req) && ctxs[req] == ctx && nRes == res0
+//@   at call 0 of Write before assert[response-modifier-ran-before-the-write] nRes == res0 + 1 && nWrite == wr0
+//@   at call 0 of Write before assert[close-decision-marks-the-response] (req.Close || closingSeen) ==> res.Close
+//@   at entry 0 before set didLink = false
+//@   at call 0 of link after set didLink = true
+//@   at return all before assert[context-released] didLink ==> !has(ctxs, req)
+//@ ghost var up0 int
+//@ ghost var res0 int
+//@ ghost var wr0 int
+//@ ghost var didLink bool
+
+// dial: one upstream contact; a connection or an error.
+//@ extern func (*Proxy).dial
+//@   modifies nUp
+//@   ensures nUp == old(nUp) + 1 && (result1 == nil) == (result0 != nil)
+
+//@ func (*Proxy).connect
+//@   serves C04 C02
+//@   requires p != nil && req != nil && req.URL != nil
+//@   modifies nUp
+//@   ensures[one-dial] nUp == old(nUp) + 1
+//@   ensures[connection-and-response-or-error] result2 == nil ==> result0 != nil && result1 != nil && result0.Body != nil && result0.Header != nil
+//@   ensures[error-returns-nothing] result2 != nil ==> result0 == nil && result1 == nil
+//@   ensures[direct-connect-answers-200] p.proxyURL == nil && result2 == nil ==> result0.StatusCode == 200 && result0.Request == req
+
+//@ func (*Proxy).handleConnectRequest
+//@   serves C02 C03 C04 C05
+//@   noframe
+//@   requires proxyReady(p) && ctxIdle(ctx) && sessionIdle(session) && session == ctx.session && conn != nil && brw != nil && brw.Writer != nil && brw.Reader != nil
+//@   requires req != nil && req.URL != nil && req.Header != nil && has(ctxs, req) && ctxs[req] == ctx && allocated(req)
+//@   modifies nReq, nRes, nUp, nWrite, bufio.Writer.gFlushed, bufio.Writer.gFailed, wroteErr, gotReq, up0, res0, wr0, didLink, closingSeen, nConnClose, nWarn, lastWarnHeader, ctxs[*], ctxmu.wheld, ctxmu.rheld
+//@   modifies http.Request.*, url.URL.*, http.Response.*, Session.hijacked, Session.secure, Session.conn, Session.brw, Context.skipRoundTrip, Context.skipLogging, Context.apiRequest
+//@   modifies sync.RWMutex.wheld, sync.RWMutex.rheld, dialN, lastDialed, lastDialErr, tls.Conn.gclosed, trafficshape.Conn.Context
+//@   ensures[locks-released] tableIdle() && sessionIdle(session)
+//@   ensures[connect-runs-the-request-modifier] nReq >= old(nReq) + 1
+//@   ensures[response-modifier-runs-once-per-request-modifier] !session.hijacked ==> nRes - old(nRes) == nReq - old(nReq)
+//@   ensures[at-most-one-upstream-contact-per-exchange] nUp - old(nUp) <= nReq - old(nReq)
+//@   ensures[one-response-written-per-exchange] !session.hijacked ==> nWrite - old(nWrite) == nReq - old(nReq)
+//@   ensures[hijacked-connection-is-not-served-again] session.hijacked ==> closeable(result)
+//@   at call 0 of ModifyRequest before assert[no-upstream-contact-before-request-modifier] nUp == old(nUp)
